@@ -25,14 +25,15 @@ RULE = ('cases: generated pragmatic problems (3-10 jobs: deliveries, pickups, se
         'additive features, each in about 1/3 of the problems and freely combined: job compatibility classes mixed with plain jobs, job '
         'groups, matrix errorCodes (asymmetric / symmetric / a location that cannot be left or entered), 2-3 capacity dimensions, skills '
         'oneOf / noneOf, vehicle reloads (small capacities + extra deliveries and shipments: several trips, shipments carried across a '
-        'reload); '
+        'reload), task order (1-3 on about half of the tasks: a hard rule with the default objectives), job value (switches the '
+        'maximize-value objective on); '
         'metric and non-metric integer matrices incl. the "cheap chain, expensive shortcut" shape) x 3 configurations each '
         '(max_generations 0-20, Parallelism none/(1,1)/(2,2), outer threads 1-2, quota firing after 0-89 polls or never). '
         'non-trivial = distinct (problem, document) whose document has a tour with >= 2 jobs or a binding constraint (an unassigned job).')
 TRUSTED = ['rendering of the JSON documents into the reduced Coq types and the rebuilding of Core activities from a reported tour '
            '(tools/props/e2e.py, Spec/Valid.v tour_acts / match_act): an activity is attributed to the job task place by location, duration and window',
            'real thread interleavings are sampled (three layouts), not enumerated']
-ASSUMPTIONS = ['problem fragment without breaks, recharges, relations (locks), tour order, job value, clustering, reload resources: those '
+ASSUMPTIONS = ['problem fragment without breaks, recharges, relations (locks), clustering, reload resources, objectives override: those '
                'constraints are not exercised by this check', 'time-independent routing',
                'groups: checked rule = all ASSIGNED jobs of a group are in one tour (the documentation\'s "or left unassigned" is read per job)']
 
@@ -237,5 +238,5 @@ MANIFEST_TEXT = ('Machine-checked proof (Coq, no axioms) over the executable mod
                  'simulation of the step theorems for tours without reloads.')
 MANIFEST_NOTE = ('Trusted: Coq kernel + vm_compute; JSON->Gallina rendering and the rebuilding of activities from the document; harness. '
                  'The tie between the evaluator model and the code is the C06 correspondence (run by `./check C06`). Not covered: breaks, '
-                 'recharge, relations/locks, tour order, job value, clustering, time-dependent routing, reload resources; real interleavings only sampled.')
+                 'recharge, relations/locks, clustering, time-dependent routing, reload resources, objectives override; real interleavings only sampled.')
 MANIFEST_TECHNIQUE = 'Coq proof (feasibility invariant over insertion/removal histories) + verified feasibility checker run on real solver output'
